@@ -1,0 +1,67 @@
+//go:build verif
+
+// Contracts for package parser, read by /verif/govc (comment-only file: with
+// the build tag off it is not compiled, with it on it declares nothing).
+// Syntax: see /verif/DESIGN.md section 2.2.
+
+package parser
+
+// ---------------------------------------------------------------- span.go
+
+//@ func parser.newSpan
+//@   inline
+//@   ensures result.Start == start && result.End == end
+
+//@ func parser.indexSpan
+//@   inline
+//@   ensures result.Start == i && result.End == i
+
+//@ func parser.nullSpan
+//@   inline
+//@   ensures result.Start == -1 && result.End == -1
+
+//@ func parser.(Span).IsValid
+//@   inline
+//@   use spanof
+//@   ensures result == spanValid(span)
+
+//@ func parser.(Span).Len
+//@   use spanof
+//@   ensures result == ite(spanValid(span), span.End - span.Start, 0)
+//@   ensures result >= 0
+
+//@ func parser.unionSpans
+//@   use spanof
+//@   ensures result == hullSeq(spans, len(spans))
+//@ loop 1
+//@   invariant -1 <= rangeindex && rangeindex < len(spans)
+//@   invariant u == hullSeq(spans, rangeindex + 1)
+//@   decreases len(spans) - rangeindex
+
+//@ func parser.spanString
+//@   use spanof
+//@   requires spanValid(span) ==> span.End <= len(s)
+//@   ensures spanValid(span) ==> result == s[span.Start:span.End]
+//@   ensures !spanValid(span) ==> result == ""
+
+// ---------------------------------------------------------------- ast.go
+// The thirty Span() methods get a generated contract (see /verif/govc/gen.go):
+//   requires spanSafe(receiver)   ensures result == SpanOf(receiver)
+// where SpanOf is derived from the struct type: the hull of every Span field,
+// every Node field and every slice-of-Node field, in field order.
+
+//@ func parser.nodeSpan
+//@   use spanof height
+//@   requires spanSafe(n)
+//@   ensures result == SpanOf(n)
+//@   decreases height(n), 1
+
+//@ func parser.nodeSliceSpan
+//@   use spanof height
+//@   requires spanSafeList(nodes, len(nodes))
+//@   ensures result == SpanOfList(nodes, len(nodes))
+//@   decreases lheight(nodes), 2
+//@ loop 1
+//@   invariant -1 <= rangeindex && rangeindex < len(nodes)
+//@   invariant hullSeq(spans, len(spans)) == SpanOfList(nodes, rangeindex + 1)
+//@   decreases len(nodes) - rangeindex
